@@ -325,7 +325,7 @@ static int stripe_main(const char* self, int argc, char** argv) {
         }
         bool counted = false;
         if (c != "ok") {
-            if (c == "budget") { if (inconclusive.size() < 5) inconclusive.push_back(result_json(j, r, false)); }
+            if (c == "budget" || c == "hang-after-fault") { if (inconclusive.size() < 5) inconclusive.push_back(result_json(j, r, false)); }
             else {
                 bool is_known = false;
                 std::string msg = r.h.done ? std::string(r.h.msg) : crash_message(r);
